@@ -455,6 +455,15 @@ func (c *ctx) streamE() error {
 	if c.tier == "thorough" {
 		sizes = append(sizes, 1<<21-1, 1<<21, 1<<21+1)
 	}
+	// inside the 4-byte length class (2^21 .. 2^28): sizes whose length varint has mixed bits
+	big := []int{1<<21 + 128 + c.r.Intn(1<<20)}
+	if c.tier == "thorough" {
+		big = append(big, 3000000+c.r.Intn(1<<20), 1<<22+c.r.Intn(1<<22))
+	}
+	for _, n := range big {
+		mk([]eop{c.sizedProgram(n, 1)})
+		mk([]eop{c.sizedProgram(n, 2)})
+	}
 	for _, n := range sizes {
 		for nest := 1; nest <= 4; nest++ {
 			mk([]eop{c.sizedProgram(n, nest)})
